@@ -212,13 +212,20 @@ Definition page (hlt : N -> N -> bool) (s : store) (batch : nat) (key : option N
     end
   end.
 
-(* the handler: batchSize absent -> "2000"; strconv.Atoi failure or a negative value -> 400 ErrInvalidBatchSize *)
+(* the handler: batchSize absent -> "2000"; strconv.Atoi failure or a negative value -> 400 ErrInvalidBatchSize.
+   Batch sizes beyond int32: Go's int is 64 bit, so strconv.Atoi accepts every decimal up to 2^63-1 (4294967295, 2^31,
+   2^31+1, 9223372036854775807 are ordinary values) and fails with a range error - answered 400 like any malformed text -
+   from 2^63 on; the value is bound as an int64 to "LIMIT ?", and SQLite's LIMIT with a count larger than the number
+   of rows returns all rows.  No arithmetic is done on the batch size anywhere, so nothing wraps.
+   [cap]: firstn with a count above the number of stored rows is firstn with (rows + 1) - the model evaluates the page
+   with the capped count so that it stays executable for counts like 2^63-1 (page_http_cap proves it is the same page). *)
 Inductive batch_arg := BAbsent | BInt (z : Z) | BJunk.
 Inductive http_page := HBadBatch | HPage (p : page_result).
+Definition cap (s : store) (z : Z) : nat := Z.to_nat (Z.min z (Z.of_nat (S (length s)))).
 Definition page_http (hlt : N -> N -> bool) (s : store) (b : batch_arg) (key : option N) : http_page :=
   match b with
-  | BAbsent => HPage (page hlt s 2000 key)
-  | BInt z => if z <? 0 then HBadBatch else HPage (page hlt s (Z.to_nat z) key)
+  | BAbsent => HPage (page hlt s (cap s 2000) key)
+  | BInt z => if (z <? 0) || (9223372036854775807 <? z) then HBadBatch else HPage (page hlt s (cap s z) key)
   | BJunk => HBadBatch
   end.
 
